@@ -25,12 +25,14 @@ EXTENDS Exporter, RawBlock, Json, IOUtils
 Tr == ndJsonDeserialize(IOEnv.TRACE)
 N  == Len(Tr)
 
-VARIABLES l, ex, lost, viol, execs
-tvars == <<l, ex, lost, viol, execs>>
+VARIABLES l, ex, lost, viol, execs, flags
+tvars == <<l, ex, lost, viol, execs, flags>>
 
 Note(v) == IF Len(viol) < 60 THEN Append(viol, v) ELSE viol
+(* violation records carry the flags of the execution (e.g. a rotation whose argument kind did not match) *)
+Flagged(v) == IF flags = {} THEN v ELSE v @@ [flags |-> flags]
 Notes(vs) == LET RECURSIVE A(_, _)
-                 A(acc, i) == IF i > Len(vs) \/ Len(acc) >= 60 THEN acc ELSE A(Append(acc, vs[i]), i + 1)
+                 A(acc, i) == IF i > Len(vs) \/ Len(acc) >= 60 THEN acc ELSE A(Append(acc, Flagged(vs[i])), i + 1)
              IN A(viol, 1)
 
 Seg(s) == IF "l" \in DOMAIN s THEN s.l ELSE Fill(s.b, s.n)
@@ -50,12 +52,12 @@ ExpPreamble(o) == [f \in (DOMAIN o.pre \cup {"bps"}) |->
 StatsOf(ev) == IF "stats" \in DOMAIN ev.op THEN <<ev.op.stats>> ELSE NoStats
 
 TraceInit == /\ l = 1 /\ ex = ExInit([major |-> <<1>>, minor |-> <<>>], <<>>) /\ lost = TRUE
-             /\ viol = <<>> /\ execs = 0
+             /\ viol = <<>> /\ execs = 0 /\ flags = {}
 
 TReset ==
     /\ l <= N /\ Tr[l].e = "R"
     /\ ex' = ExInit(PreOf(Tr[l].preamble), Tr[l].preamble.bps)
-    /\ lost' = FALSE /\ execs' = execs + 1 /\ l' = l + 1
+    /\ lost' = FALSE /\ execs' = execs + 1 /\ l' = l + 1 /\ flags' = {}
     /\ UNCHANGED viol
 
 Cnt(e) == [items |-> ItemCount(e.blk), qr |-> Len(e.blk.qrs), aec |-> Len(e.blk.aecs), mm |-> Len(e.blk.mms),
@@ -96,6 +98,7 @@ XCnt(e) == [items |-> ItemCount(e.xb), qr |-> Len(e.xb.qrs), aec |-> Len(e.xb.ae
 TCall ==
     /\ l <= N /\ Tr[l].e = "C"
     /\ l' = l + 1 /\ UNCHANGED execs
+    /\ flags' = IF "mismatch" \in DOMAIN Tr[l].op /\ Tr[l].op.mismatch THEN flags \cup {"kindmismatch"} ELSE flags
     /\ IF lost THEN UNCHANGED <<ex, lost, viol>>
        ELSE LET ev == Tr[l]
                 \* byte counts returned by buffer/write/rotate calls belong to the output open at the call
@@ -107,10 +110,10 @@ TCall ==
                 cntOK == ev.cnt = Cnt(m.s) /\ ("xcnt" \in DOMAIN ev => ev.xcnt = XCnt(m.s))
             IN IF retOK /\ cntOK
                THEN ex' = m.s /\ UNCHANGED <<lost, viol>>
-               ELSE /\ viol' = Note([l |-> l, prop |-> "C12,C13,C01",
+               ELSE /\ viol' = Note(Flagged([l |-> l, prop |-> "C12,C13,C01",
                                      what |-> "call " \o ev.op.op \o ": return value or counters differ from the exporter state machine",
                                      ret |-> ev.ret, want_nonzero |-> m.nz, cnt |-> ev.cnt, want_cnt |-> Cnt(m.s),
-                                     exc |-> IF "exc" \in DOMAIN ev THEN ev.exc ELSE ""])
+                                     exc |-> IF "exc" \in DOMAIN ev THEN ev.exc ELSE ""]))
                     /\ lost' = TRUE /\ UNCHANGED ex
 
 (* ----------------------------- closed output --------------------------- *)
@@ -245,7 +248,7 @@ FormViol(ev, ln) ==
 
 TOut ==
     /\ l <= N /\ Tr[l].e = "OUT"
-    /\ l' = l + 1 /\ UNCHANGED <<execs, lost>>
+    /\ l' = l + 1 /\ UNCHANGED <<execs, lost, flags>>
     /\ IF lost THEN viol' = Notes(FormViol(Tr[l], l)) /\ UNCHANGED ex
        ELSE LET ev  == Tr[l]
                 ex1 == IF ev.why = "destroy" THEN StepDestroy(ex) ELSE ex
@@ -258,13 +261,13 @@ TCrash ==
     /\ l' = l + 1
     /\ viol' = Note([l |-> l, prop |-> "C01,C02,C12,C13,C20,C03", what |-> "implementation crashed: " \o Tr[l].what])
     /\ lost' = TRUE
-    /\ UNCHANGED <<ex, execs>>
+    /\ UNCHANGED <<ex, execs, flags>>
 
 TEnd ==
     /\ l <= N /\ Tr[l].e = "END"
     /\ ndJsonSerialize(IOEnv.OUT, <<[execs |-> execs, events |-> N, viol |-> viol, drift |-> <<>>]>>)
     /\ l' = l + 1
-    /\ UNCHANGED <<ex, lost, viol, execs>>
+    /\ UNCHANGED <<ex, lost, viol, execs, flags>>
 
 TraceNext == TReset \/ TCall \/ TOut \/ TCrash \/ TEnd
 TraceSpec == TraceInit /\ [][TraceNext]_tvars
